@@ -242,6 +242,7 @@ func (s *session) crashCheck(args []string, pending []string, pre []kv, writes [
 		return false
 	}
 	partials := 0
+	firstState, firstRetry := "", ""
 	for i := 1; i < n; i++ {
 		o, t := obs(i)
 		why := judge(o, preO, postO, deleting)
@@ -249,11 +250,17 @@ func (s *session) crashCheck(args []string, pending []string, pre []kv, writes [
 			partials++
 			why = ""
 		}
-		if why != "" {
-			t.Close()
-			return fmt.Sprintf("n=%d cut=%d %s", n, i, why)
+		if why != "" && firstState == "" {
+			firstState = fmt.Sprintf("n=%d cut=%d %s", n, i, why)
 		}
-		// retry the interrupted operation
+		if o.loadErr {
+			if t != nil {
+				t.Close()
+			}
+			continue // nothing to retry on a store that does not load
+		}
+		// retry the interrupted operation (also from a state that is neither before nor after: the
+		// operation must still be completable)
 		retry := func() (res string) {
 			defer func() {
 				if r := recover(); r != nil {
@@ -306,9 +313,18 @@ func (s *session) crashCheck(args []string, pending []string, pre []kv, writes [
 			return ""
 		}()
 		t.Close()
-		if retry != "" {
-			return fmt.Sprintf("n=%d cut=%d %s", n, i, retry)
+		if retry != "" && firstRetry == "" {
+			firstRetry = fmt.Sprintf("cut=%d %s", i, retry)
 		}
+	}
+	if firstState != "" || firstRetry != "" {
+		if firstState == "" {
+			return fmt.Sprintf("n=%d %s", n, firstRetry)
+		}
+		if firstRetry == "" {
+			return firstState
+		}
+		return firstState + " ; also " + firstRetry
 	}
 	return fmt.Sprintf("n=%d cuts=%d partial=%d ok", n, n-1, partials)
 }
